@@ -298,10 +298,10 @@ Lemma strip_idem i : strip (strip i) = strip i.
 Proof. induction i; try reflexivity; exact IHi2. Qed.
 
 Lemma spec_flow red p rt rm st ss :
-  wf_base (IFlow red p rt rm st ss) = true ->
-  spec_base (IFlow red p rt rm st ss) (model_base (IFlow red p rt rm st ss)) = true.
+  wf_leaf (IFlow red p rt rm st ss) = true ->
+  spec_leaf (IFlow red p rt rm st ss) (model_leaf (IFlow red p rt rm st ss)) = true.
 Proof.
-  cbn [wf_base spec_base model_base]. intros Hwf.
+  cbn [wf_leaf spec_leaf model_leaf]. intros Hwf.
     apply andb_true_iff in Hwf as [Hrt Hwf].
     assert (Hrt' : (String.eqb rt "code" || (String.eqb rt "id_token token" || String.eqb rt "id_token")) = true).
     { apply orb_true_iff in Hrt as [-> | Hrt]; [reflexivity|].
@@ -359,12 +359,11 @@ Example driven_schedules_in_program_order :
   program_order [] sched_nested = true /\ program_order [] sched_crossed = true.
 Proof. split; reflexivity. Qed.
 
-Theorem spec_model_partial i : wf i = true -> spec i (model i) = true.
+Lemma spec_model_leaf i : wf_leaf i = true -> spec_leaf i (model_leaf i) = true.
 Proof.
-  unfold wf, spec, model. generalize (strip i). clear i. intros i.
   destruct i as [red [u|] rt rm r | red r | red [u|] rt rm c st ss | red [u|] rt rm e d st ss dis
-                 | red p rt rm st ss | other i' | prev n i']; try apply spec_flow;
-    cbn [wf_base spec_base model_base]; intros Hwf; try reflexivity; try discriminate Hwf.
+                 | red p rt rm st ss | post q b sent i' | other i' | prev n i']; try apply spec_flow;
+    cbn [wf_leaf spec_leaf model_leaf]; intros Hwf; try reflexivity; try discriminate Hwf.
   - apply url_spec_model, Hwf.
   - apply andb_true_iff in Hwf as [Hwf He]. apply andb_true_iff in Hwf as [Hs Hc].
     apply form_spec_model; [assumption | assumption | now apply negb_true_iff].
@@ -378,6 +377,85 @@ Proof.
     unfold url_obs at 1. apply url_spec_redirect, Hwf.
   - destruct (String.eqb red "" || dis); [|reflexivity]. apply orb_true_r.
 Qed.
+
+Theorem spec_model_partial i : wf i = true -> spec i (model i) = true.
+Proof.
+  unfold wf, spec, model. generalize (strip i). clear i. intros i.
+  destruct i as [red p rt rm r | red r | red p rt rm c st ss | red p rt rm e d st ss dis
+                 | red p rt rm st ss | post q b sent i' | other i' | prev n i'];
+    try exact (spec_model_leaf _).
+  cbn [wf_base spec_base model_base].
+  destruct (inbound_form post q b) as [form|]; [|reflexivity].
+  intros Hwf. apply andb_true_iff in Hwf as [Hin Hwf].
+  pose proof (spec_model_leaf _ Hwf) as H.
+  assert (Hex : existsb (fun s => spec_leaf (set_state s i')
+                                   (model_leaf (set_state (field_value "state" form) i'))) sent = true).
+  { apply existsb_exists. unfold string_in in Hin. apply existsb_exists in Hin as [x [Hx Hxe]].
+    apply String.eqb_eq in Hxe. subst x. eexists; split; [exact Hx | exact H]. }
+  destruct (model_leaf (set_state (field_value "state" form) i')); try exact Hex. reflexivity.
+Qed.
+
+(* inbound, the standard encoding (what url.Values.Encode, and every client library
+   built on it, writes): the request is never refused for its encoding and the
+   provider reads exactly the parameters the client wrote, in GET and in POST *)
+Lemma in_insert_pair p q l : In p (insert_pair q l) -> p = q \/ In p l.
+Proof.
+  induction l as [|x l IH]; cbn [insert_pair]; intros H.
+  - destruct H as [<- | []]. now left.
+  - destruct (str_ltb (fst x) (fst q)).
+    + destruct H as [<- | H]; [right; now left|]. destruct (IH H) as [-> | H']; [now left | right; now right].
+    + destruct H as [<- | H]; [now left | now right].
+Qed.
+
+Lemma in_sort_pairs p l : In p (sort_pairs l) -> In p l.
+Proof.
+  induction l as [|x l IH]; cbn [sort_pairs]; intros H; [exact H|].
+  destruct (in_insert_pair _ _ _ H) as [-> | H']; [now left | right; now apply IH].
+Qed.
+
+Theorem inbound_standard_encoding l :
+  inbound_form false (values_encode l) "" = Some (sort_pairs l)
+  /\ inbound_form true "" (values_encode l) = Some (sort_pairs l)
+  /\ forall k, fold_lower k = k ->
+       (forall p, In p l -> fold_lower (fst p) = k -> fst p = k) ->
+       field_value k (sort_pairs l) = field_value k l.
+Proof.
+  unfold inbound_form. rewrite query_ok_encode, parse_encode. cbn [negb orb andb app].
+  repeat split.
+  - change (query_ok "") with true. cbn [andb]. change (parse_query "") with (@nil (string * string)).
+    now rewrite app_nil_r.
+  - intros k Hk Hl. unfold field_value.
+    assert (Hext : forall L, (forall p, In p L -> In p l) ->
+              filter (fun p => String.eqb (fold_lower (fst p)) k) L = with_key k L).
+    { intros L HL. unfold with_key. apply filter_ext_in. intros p Hp.
+      destruct (String.eqb (fold_lower (fst p)) k) eqn:E1.
+      - apply String.eqb_eq in E1. rewrite (Hl p (HL p Hp) E1). symmetry. apply String.eqb_refl.
+      - destruct (String.eqb k (fst p)) eqn:E2; [|reflexivity].
+        apply String.eqb_eq in E2. rewrite <- E2, Hk, String.eqb_refl in E1. discriminate E1. }
+    rewrite (Hext (sort_pairs l) (fun p => in_sort_pairs p l)), (Hext l (fun p H => H)).
+    now rewrite with_key_sort.
+Qed.
+
+(* finding Fxx-C11-2: a parameter named "State" is not the state parameter, yet the
+   response carries its value as state *)
+Theorem inbound_key_case_refuted : exists i, spec i (model i) = false.
+Proof.
+  exists (IInbound false "client_id=c&State=other" "" [""]
+            (IErr "https://rp.example.com/cb" (Some (mk_purl "https://rp.example.com/cb" false "" "" ""))
+                  "code" "" "access_denied" "" "" "" false)).
+  vm_compute. reflexivity.
+Qed.
+
+(* a raw ';' (legal in an RFC 3986 query) makes net/http drop the pair and report it:
+   the model refuses the request (ParseForm's error is fatal), it never proceeds
+   without the state *)
+Example inbound_semicolon_refused :
+  inbound_form false "client_id=c&state=a;b" "" = None
+  /\ inbound_form false "client_id=c&state=a%zz" "" = None
+  /\ inbound_form true "x=1" "state=a;b" = None
+  /\ inbound_form false "client_id=c&&=v&state=a+b&state=c%3Bd" "" =
+       Some [("client_id", "c"); ("", "v"); ("state", "a b"); ("state", "c;d")].
+Proof. vm_compute. repeat split. Qed.
 
 (* F23: without the scheme guard the statement is false *)
 Theorem form_post_custom_scheme_refuted :
